@@ -107,7 +107,7 @@ def internals (s : St) : List Op :=
 def Cand.succ (c : Cand) : List Cand :=
   (internals c.st).filterMap (fun o => (step c.st o).map (fun s' => { c with st := s' }))
 
-def LIMIT : Nat := 64
+def LIMIT : Nat := 400
 
 def rpcName : RPc → String
   | .reading => "reading" | .inLoop => "inLoop" | .parked => "parked" | .blocked => "blocked" | .finished => "finished"
@@ -194,7 +194,9 @@ def accept : Handler := fun j => do
     -- the observation is over: everything the model produced must have been observed (after the internal steps that are due)
     let fin := (closure 4 cs).filter (fun c => c.pending.isEmpty)
     match fin.reverse.head? with
-    | some c => pure (Json.mkObj [("accepted", true), ("final", projJson c.st), ("candidates", toJson cs.length)])
+    | some c => pure (Json.mkObj [("accepted", true), ("final", projJson c.st), ("candidates", toJson cs.length),
+        -- every model run consistent with the whole observation (schedules the labels do not distinguish)
+        ("finals", Json.arr ((fin.reverse.take 24).map (fun c => projJson c.st)).toArray)])
     | none =>
       let c := cs.head?
       pure (Json.mkObj [("accepted", false), ("rejected", Json.mkObj [("index", toJson idx), ("label", Json.str "<end>"),
